@@ -478,3 +478,156 @@ func TermRandom(r *rand.Rand, depth int) []*Stmt {
 		return renumber(l)
 	}
 }
+
+// ScopeRandom: bodies whose interest lies in lexical scoping - `d<k> := V(k)` declarations at arbitrary
+// statement positions with names from a pool of three (so nested scopes shadow), if / for / switch
+// initialisers that declare, and conditions / tags that use any visible name.  Every declaration is used (a
+// declaration statement is followed by `if C(n, d<k>) {...}`, an initialiser is used by its condition or tag),
+// no name is declared twice in one Go block, so source and generated code build.  Shapes of the known
+// findings are avoided: a yielding post only on a body without top-level declarations and without continue
+// (D8, D6), no break inside switch clauses (D7).
+func ScopeRandom(r *rand.Rand, depth int) []*Stmt {
+	next := 10
+	id := func() int { next++; return next }
+	uses := func(vis []int) []int {
+		seen := map[int]bool{}
+		var out []int
+		for i, n := 0, r.Intn(3); i < n && len(vis) > 0; i++ {
+			u := vis[r.Intn(len(vis))]
+			if !seen[u] {
+				seen[u] = true
+				out = append(out, u)
+			}
+		}
+		return out
+	}
+	yield := func() *Stmt {
+		if r.Intn(4) == 0 {
+			return &Stmt{K: Yield, E: E{Lit: true, N: 1 + r.Intn(9)}}
+		}
+		return &Stmt{K: Yield, E: E{N: id()}}
+	}
+	freshName := func(frame map[int]bool) int {
+		for _, k := range r.Perm(3) {
+			if !frame[k+1] {
+				return k + 1
+			}
+		}
+		return 0
+	}
+	var list func(d int, vis []int, inLoop, allowDef, allowCont bool) []*Stmt
+	list = func(d int, vis []int, inLoop, allowDef, allowCont bool) []*Stmt {
+		frame := map[int]bool{}
+		vis = append([]int{}, vis...)
+		var out []*Stmt
+		n := 1 + r.Intn(4)
+		for i := 0; i < n; i++ {
+			switch k := r.Intn(100); {
+			case k < 12:
+				out = append(out, &Stmt{K: Act, N: id()})
+			case k < 32:
+				out = append(out, yield())
+			case k < 52 && allowDef:
+				name := freshName(frame)
+				if name == 0 {
+					continue
+				}
+				frame[name] = true
+				out = append(out, &Stmt{K: Def, N: name})
+				vis = append(vis, name)
+				use := &Stmt{K: If, Cond: id(), Uses: append([]int{name}, uses(vis)...)}
+				if d > 0 && r.Intn(2) == 0 {
+					use.Body = list(d-1, vis, inLoop, true, allowCont)
+				}
+				use.Uses = dedupe(use.Uses)
+				out = append(out, use)
+			case k < 64 && d > 0: // if, optionally with a declaring initialiser
+				s := &Stmt{K: If, Cond: id()}
+				v2 := vis
+				if r.Intn(2) == 0 {
+					name := 1 + r.Intn(3)
+					s.Init = &Stmt{K: Def, N: name}
+					v2 = append(append([]int{}, vis...), name)
+					s.Uses = dedupe(append([]int{name}, uses(v2)...))
+				} else {
+					s.Uses = uses(vis)
+				}
+				s.Body = list(d-1, v2, inLoop, true, allowCont)
+				switch r.Intn(3) {
+				case 0:
+					s.Else = &Else{Body: list(d-1, v2, inLoop, true, allowCont)}
+				case 1:
+					s.Else = &Else{If: &Stmt{K: If, Cond: id(), Uses: uses(v2), Body: list(d-1, v2, inLoop, true, allowCont)}}
+				}
+				out = append(out, s)
+			case k < 78 && d > 0: // for
+				s := &Stmt{K: For, Cond: id()}
+				v2 := vis
+				switch r.Intn(4) {
+				case 0:
+					name := 1 + r.Intn(3)
+					s.Init = &Stmt{K: Def, N: name}
+					v2 = append(append([]int{}, vis...), name)
+					s.Uses = dedupe(append([]int{name}, uses(v2)...))
+				case 1:
+					s.Init = yield()
+					s.Uses = uses(vis)
+				default:
+					s.Uses = uses(vis)
+				}
+				switch r.Intn(4) {
+				case 0:
+					s.Post = &Stmt{K: Act, N: id()}
+					s.Body = list(d-1, v2, true, true, true)
+				case 1:
+					s.Post = yield()
+					s.Body = list(d-1, v2, true, false, false)
+				default:
+					s.Body = list(d-1, v2, true, true, true)
+				}
+				out = append(out, s)
+			case k < 88 && d > 0: // switch
+				s := &Stmt{K: Switch, Tag: id()}
+				v2 := vis
+				if r.Intn(2) == 0 {
+					name := 1 + r.Intn(3)
+					s.Init = &Stmt{K: Def, N: name}
+					v2 = append(append([]int{}, vis...), name)
+					s.Uses = dedupe(append([]int{name}, uses(v2)...))
+				} else {
+					s.Uses = uses(vis)
+				}
+				for c, nc := 0, 1+r.Intn(2); c < nc; c++ {
+					s.Cases = append(s.Cases, &Case{Ks: []int{c}, Body: list(d-1, v2, false, true, false)})
+				}
+				if r.Intn(2) == 0 {
+					s.Cases = append(s.Cases, &Case{Default: true, Body: list(d-1, v2, false, true, false)})
+				}
+				out = append(out, s)
+			case k < 93 && d > 0:
+				out = append(out, &Stmt{K: Block, Body: list(d-1, vis, inLoop, true, allowCont)})
+			case k < 97 && inLoop && i == n-1:
+				if allowCont && r.Intn(2) == 0 {
+					out = append(out, &Stmt{K: Continue})
+				} else {
+					out = append(out, &Stmt{K: If, Cond: id(), Uses: uses(vis), Body: []*Stmt{{K: Break}}})
+				}
+			}
+		}
+		return out
+	}
+	body := list(depth, nil, false, true, false)
+	return append(body, yield())
+}
+
+func dedupe(xs []int) []int {
+	seen := map[int]bool{}
+	var out []int
+	for _, x := range xs {
+		if !seen[x] {
+			seen[x] = true
+			out = append(out, x)
+		}
+	}
+	return out
+}
